@@ -19,13 +19,13 @@ pub fn check() -> Check {
     Check {
         id: "C02",
         level: "exploration",
-        rule: "per run: a seeded tiny program (2-3 threads, 1-3 operations each, one primitive family at a time or mixed: mutex/rwlock/try-locks, condvar, barrier, once + is_completed, atomics, channels with endpoint drops, park/unpark, joins); the model's outcome set is enumerated; the runtime's choice tree is explored exhaustively by scripted schedules up to a leaf budget. Violations: an observed outcome the model does not allow, or — when the tree was exhausted — a model outcome that no schedule produces (keyed by the kind of operation that lacks a preceding choice point). Distinct = (program, schedule); non-trivial = program whose model outcome set has at least 2 elements",
+        rule: "per run: a seeded tiny program (2-3 threads, 1-3 operations each, one primitive family at a time or mixed: mutex/rwlock/try-locks, condvar, barrier, once + is_completed, atomics, channels with endpoint drops, park/unpark, joins); the model's outcome set is enumerated; the runtime's choice tree is explored exhaustively by scripted schedules up to a leaf budget. Violations: an observed outcome the model does not allow, or — when the tree was exhausted — a model outcome that no schedule produces (keyed by the kind of operation that lacks a preceding choice point). Batches choicepoints / atomic-choicepoints check the local form on larger programs and on every atomic type (10 integer types and bool, all operations): a visible operation that completes without any scheduling decision since the same task's previous operation lacks its choice point. Distinct = (program, schedule); non-trivial = program whose model outcome set has at least 2 elements",
         assumptions: &["outcome = per-thread operation results plus termination verdict; barrier leader identity and task ids are not part of the outcome", "the reference model may over-approximate only in ways argued harmless in DESIGN.md (absorbing fast paths)", "programs whose runtime tree exceeds the leaf budget are inconclusive (counted, never alarmed)"],
         real_components: "real: shuttle-std primitives and shuttle-engine runtime explored through the harness's scripted FollowSched; model: outcome enumeration in harness/src/model.rs",
-        batches: |t: Tier| vec![Batch::new("tiny", t.pick(2500, 60000), 50), Batch::new("known", 2, 1), Batch::new("choicepoints", t.pick(12000, 200000), 400)],
+        batches: |t: Tier| vec![Batch::new("tiny", t.pick(2500, 60000), 50), Batch::new("known", 2, 1), Batch::new("choicepoints", t.pick(12000, 200000), 400), Batch::new("atomic-choicepoints", t.pick(6000, 100000), 400)],
         run,
         replay,
-        probes: &["programs_exhausted", "programs_with_2+_outcomes", "outcomes_compared", "inconclusive_budget", "deadlock_outcomes"],
+        probes: &["programs_exhausted", "programs_with_2+_outcomes", "outcomes_compared", "inconclusive_budget", "deadlock_outcomes", "atomic_ops_with_choice_point_checked"],
     }
 }
 
@@ -257,6 +257,11 @@ fn run(batch: &str, idx: u64, seed: u64, tier: Tier) -> RunOut {
         check_program(&witness(idx), 6000, &mut out);
         return out;
     }
+    if batch == "atomic-choicepoints" {
+        // the same local form on every atomic type (10 integer types, bool) and operation
+        super::c04::atomic_choicepoint_run(&mut rng, &mut out);
+        return out;
+    }
     if batch == "choicepoints" {
         // local form of the property on medium-sized programs: a visible operation that completes without
         // any scheduling decision since the task's previous operation lacks its choice point, unless it
@@ -309,6 +314,9 @@ fn run(batch: &str, idx: u64, seed: u64, tier: Tier) -> RunOut {
 
 fn replay(case: &Value) -> RunOut {
     let mut out = RunOut::default();
+    if super::c04::atomic_choicepoint_replay(case, &mut out) {
+        return out;
+    }
     if let Some(c) = case_from_json(case) {
         let r = run_case(&c);
         for (i, ex) in r.rt.execs.iter().enumerate() {
